@@ -286,6 +286,17 @@ fn hex_cases() -> impl Iterator<Item = HexCase> {
         v.push(HexCase { n, text: uni });
       }
     }
+    // strings whose UTF-8 byte length is exactly 2N with one multi-byte character at every byte offset
+    let total = 2 * n as usize;
+    for (ch, w) in [('é', 2usize), ('€', 3), ('😀', 4)] {
+      for off in 0..=(total - w) {
+        let mut t = String::new();
+        t.push_str(&"0".repeat(off));
+        t.push(ch);
+        t.push_str(&"a".repeat(total - w - off));
+        v.push(HexCase { n, text: t });
+      }
+    }
   }
   v.into_iter()
 }
@@ -298,6 +309,95 @@ fn hex_case() -> BoxedStrategy<HexCase> {
   ])
     .prop_map(|(i, text)| HexCase { n: [24u32, 32, 48, 49, 64][pick(i, 5)], text })
     .boxed()
+}
+
+// ---------------------------------------------------------------- (e) authentic tokens with hostile claim values
+
+#[derive(Clone, Debug, Serialize, Deserialize)]
+pub struct ClaimCase {
+  proto: Proto,
+  layer: Layer,
+  /// raw JSON text of the payload (authentically encrypted / signed, so it reaches claim handling)
+  payload: String,
+}
+
+pub struct HostileClaims;
+impl Sub for HostileClaims {
+  type Case = ClaimCase;
+  fn name(&self) -> String {
+    "C09/authentic-token-hostile-claims".into()
+  }
+  fn check(&self, c: &ClaimCase, cl: &mut Classes) -> Verdict {
+    let km = keys::material(c.proto, &SEED);
+    let lk = km.lib().expect("keys");
+    let token = match core_build(&lk, &[5u8; 32][..if c.proto == Proto::V2L { 24 } else { 32 }], &c.payload, None, None) {
+      Ok(t) => t,
+      Err(_) => return Verdict::Discard,
+    };
+    cl.tag(format!("{}:{}", c.proto.label(), c.layer.label()));
+    cl.nontrivial(true);
+    verdict(parse_any(c.proto, c.layer, &token, None), &format!("{} {} parse of an authentic token with payload {}", c.proto.label(), c.layer.label(), c.payload))
+  }
+}
+
+const HOSTILE_TIMES: [&str; 28] = [
+  "9999-12-31T23:59:59-01:00", "9999-12-31T23:59:59-23:59", "9999-12-31T23:59:59.999999999-00:01", "9999-12-31T23:59:59Z", "9999-12-31T23:59:60Z",
+  "0000-01-01T00:00:00+00:01", "0000-01-01T00:00:00+23:59", "0000-01-01T00:00:00Z", "0000-12-31T23:59:59-23:59", "0001-01-01T00:00:00+14:00",
+  "2016-12-31T23:59:60Z", "2016-12-31T23:59:60+23:59", "1972-06-30T23:59:60-23:59", "2024-02-29T12:00:00+05:30", "2023-02-29T12:00:00Z",
+  "2024-01-01T00:00:00.0000000000000000000000000000000000000001Z", "2024-01-01T00:00:00.999999999999999999999999Z", "2024-01-01T24:00:00Z", "2024-01-01T00:00:00+24:00",
+  "2024-01-01T00:00:00-00:00", "+2024-01-01T00:00:00Z", "-0001-01-01T00:00:00Z", "10000-01-01T00:00:00Z", "2024-13-01T00:00:00Z", "2024-01-01T00:00:00+99:99", "2024-01-01t00:00:00z",
+  "1970-01-01T00:00:00Z", "1969-12-31T23:59:59.999999999+23:59",
+];
+
+fn hostile_value() -> BoxedStrategy<serde_json::Value> {
+  use serde_json::json;
+  prop_oneof![
+    6 => any::<u16>().prop_map(|i| json!(HOSTILE_TIMES[pick(i, HOSTILE_TIMES.len())])),
+    // any year x any offset x any fraction, well-formed
+    6 => (0u32..=9999, 1u32..=12, 1u32..=31, 0u32..=24, 0u32..=60, 0u32..=60, proptest::collection::vec(0u8..10, 0..12), -1439i32..=1439, any::<bool>())
+      .prop_map(|(y, mo, d, h, mi, se, frac, off, z)| {
+        let mut s = format!("{:04}-{:02}-{:02}T{:02}:{:02}:{:02}", y, mo, d, h, mi, se);
+        if !frac.is_empty() { s.push('.'); for f in frac { s.push((b'0' + f) as char); } }
+        if z { s.push('Z'); } else { s.push(if off < 0 { '-' } else { '+' }); s.push_str(&format!("{:02}:{:02}", off.abs() / 60, off.abs() % 60)); }
+        json!(s)
+      }),
+    2 => gen::json_value(3),
+    1 => gen::unicode(12).prop_map(|s| json!(s)),
+    1 => any::<i64>().prop_map(|i| json!(i)),
+    1 => Just(json!(1e308)),
+    1 => Just(json!(u64::MAX)),
+  ]
+  .boxed()
+}
+
+fn claim_case() -> BoxedStrategy<ClaimCase> {
+  (any::<u16>(), any::<u16>(), proptest::collection::vec((prop_oneof![4 => Just("exp".to_string()), 4 => Just("nbf".to_string()), 1 => Just("iat".to_string()), 1 => Just("sub".to_string()), 1 => gen::json_key()], hostile_value()), 0..4), 0u8..12)
+    .prop_map(|(p, l, members, shape)| {
+      let obj: serde_json::Map<String, serde_json::Value> = members.into_iter().collect();
+      let payload = match shape {
+        0 => serde_json::Value::Array(obj.values().cloned().collect()).to_string(), // a payload that is not an object
+        1 => "null".to_string(),
+        2 => "\"just a string\"".to_string(),
+        3 => "{\"exp\":".to_string(), // authentic but not JSON
+        _ => serde_json::Value::Object(obj).to_string(),
+      };
+      ClaimCase { proto: Proto::ALL[pick(p, 8)], layer: Layer::ALL[pick(l, 3)], payload }
+    })
+    .boxed()
+}
+
+fn hostile_grid() -> impl Iterator<Item = ClaimCase> {
+  let mut v = vec![];
+  for proto in [Proto::V4L, Proto::V2P, Proto::V1L] {
+    for layer in [Layer::Generic, Layer::Prelude] {
+      for t in HOSTILE_TIMES {
+        for key in ["exp", "nbf"] {
+          v.push(ClaimCase { proto, layer, payload: format!("{{\"{key}\":\"{t}\"}}") });
+        }
+      }
+    }
+  }
+  v.into_iter()
 }
 
 // ---------------------------------------------------------------- libFuzzer support
@@ -352,7 +452,7 @@ pub fn fuzz_seeds() -> Vec<Vec<u8>> {
 // ----------------------------------------------------------------
 
 pub fn subs() -> Vec<Box<dyn DynSub>> {
-  vec![Box::new(ByLength), Box::new(Cuts), Box::new(AnyText), Box::new(HexKeys)]
+  vec![Box::new(ByLength), Box::new(Cuts), Box::new(AnyText), Box::new(HexKeys), Box::new(HostileClaims)]
 }
 
 pub fn run(ctx: &Ctx) -> EvidenceMeta {
@@ -365,13 +465,16 @@ pub fn run(ctx: &Ctx) -> EvidenceMeta {
     Box::new(|| ctx.prop(&AnyText, text_case(), ctx.n(20_000, 600_000))),
     Box::new(|| ctx.prop(&HexKeys, hex_case(), ctx.n(5_000, 200_000))),
     Box::new(|| ctx.fuzz_inputs(&AnyText, "fz_anytoken", fuzz_decode)),
+    Box::new(|| ctx.enumerate(&HostileClaims, hostile_grid(), false)),
+    Box::new(|| ctx.prop(&HostileClaims, claim_case(), ctx.n(15_000, 300_000))),
   ];
   run_jobs(jobs);
   EvidenceMeta {
     rule: "length-sweep: each of the 8 headers + base64url of a payload of every decoded length 0..=400 x 3 contents x with/without footer segment x 3 layers (exhaustive); \
            prefixes-and-deletions: every prefix, suffix and single-character deletion of an authentic token per protocol x layer (exhaustive); \
            hex-key-strings: Key::<N>::try_from for N in {24,32,48,49,64} on valid/invalid hex of every length 0..=200 (exhaustive) plus generated strings; \
-           arbitrary-text: generated Unicode, 0-6 segments, right header + base64-alphabet noise / random bytes / padding / trailing dots, 1 MiB inputs. \
+           arbitrary-text: generated Unicode, 0-6 segments, right header + base64-alphabet noise / random bytes / padding / trailing dots, 1 MiB inputs; \
+           authentic-token-hostile-claims: authentically encrypted/signed payloads whose exp/nbf/other members carry calendar extremes (year 0000/9999 with offsets, leap seconds, 40 fraction digits), any well-formed or ill-formed timestamp, arbitrary JSON, or that are not objects / not JSON at all. \
            Oracle: catch_unwind around the entry point; any unwind is a violation keyed by panic location. \
            Non-trivial = the input has the right header and a decodable payload (reaches the slicing code) or is a hex-key string; distinct by input."
       .into(),
